@@ -1,6 +1,6 @@
 (** C02 — no nonce is ever reused under a session key, in either direction. *)
 From Coq Require Import List NArith String Bool.
-From MM Require Import Lib.Bytes Model.Session Proofs.SessionProofs Proofs.SessionWitnesses Generated.C02.
+From MM Require Import Lib.Bytes Model.Session Model.Rekey Proofs.SessionProofs Proofs.SessionWitnesses Proofs.RekeyProofs Generated.C02.
 Import ListNotations.
 Local Open Scope N_scope.
 Local Open Scope bool_scope.
@@ -52,6 +52,53 @@ Theorem C02_example :
   build_nonce (send_prefix Res) 0 = bytes_of_hex "800000000000000000000000".
 Proof. exact example_trace_nonces. Qed.
 Print Assumptions C02_example.
+
+(** One tunnel session, seen from the ingress while *_OPEN_ACK frames arrive:
+    the theorems above are about ONE SessionKey object; a session would still
+    reuse nonces if a second object holding the same key (send counter 0
+    again) replaced the first.  With the handler as it is (an ACK for a session
+    whose open handshake has completed is ignored: C02_session_key_sources),
+    for EVERY sequence of ACKs (duplicates, replays, ACKs yielding any key) and
+    sealed payloads, with at most 2^64 payloads: no (key, nonce counter) pair
+    is used twice and every payload is sealed under the key of the first ACK. *)
+Theorem C02_session_key_installed_once_no_pair_repeats : forall evs : list iev,
+  seal_count evs <= two64 ->
+  let out := snd (irun ack_guarded ingress0 evs) in
+  NoDup out /\ forall p, In p out -> Some (fst p) = first_ack evs.
+Proof. exact guarded_no_pair_repeats. Qed.
+Print Assumptions C02_session_key_installed_once_no_pair_repeats.
+
+(** The handler without that test violates it: a duplicated ACK for which the
+    same key is derived again (seeded change C02_3) repeats (key, nonce 0) ... *)
+Theorem C02_refuted_unguarded_duplicate_ack : forall k,
+  ~ NoDup (snd (irun ack_unguarded ingress0 [IAck k; ISeal; IAck k; ISeal])).
+Proof. exact unguarded_repeats_pair. Qed.
+Print Assumptions C02_refuted_unguarded_duplicate_ack.
+
+(** ... and when another key is derived (the code before the two `fix:`
+    commits on handleUDPOpenAck / handleICMPOpenAck: the private key had been
+    zeroed) the key shared with the exit is replaced. *)
+Theorem C02_refuted_unguarded_ack_replaces_key : forall k k', k <> k' ->
+  exists p, In p (snd (irun ack_unguarded ingress0 [IAck k; ISeal; IAck k'; ISeal])) /\
+            Some (fst p) <> first_ack [IAck k; ISeal; IAck k'; ISeal].
+Proof. exact unguarded_replaces_key. Qed.
+Print Assumptions C02_refuted_unguarded_ack_replaces_key.
+
+(** Regenerated on this run: every place outside internal/crypto that stores a
+    non-nil session key, with the reason it cannot run twice for one session
+    (1 early return once the open completed / a key is present, 2 object
+    created in the same function, 3 object from a one-shot channel result,
+    4 parameter and all callers pass a fresh object).  None is unprotected,
+    and the handlers that write the field directly from a network frame are
+    all of class 1. *)
+Definition key_write_ok (w : string * string * N) : bool :=
+  let '(_, how, class) := w in
+  negb (N.eqb class 0) && (negb (String.eqb how "field") || N.eqb class 1 || N.eqb class 2).
+
+Theorem C02_session_key_sources :
+  forallb key_write_ok gen_c02_key_writes = true /\ gen_c02_key_writes <> [].
+Proof. split; [reflexivity|discriminate]. Qed.
+Print Assumptions C02_session_key_sources.
 
 Definition site_ok (s : string * string * N * N) : bool :=
   let '(_, _, role, flag) := s in (N.eqb role flag) && (N.ltb flag 2).
